@@ -46,11 +46,13 @@ def cases(tier):
         # ("diagk2": diag(1, 1/4, 1) at |t| = 3*theta = 7.5 > 2*pi -- a non-identity metric over more than a period)
         # ("diaghalf": diag(4, 1, 4), frequencies 1/2, 1, 1/2, time unit 2*theta: |t| = 2*2*theta = 10 > 2*pi with a
         #  frequency that is not an integer)
-        for metric, js in (("identity", (1, -2, 3)), ("diagk", (1, -1)), ("rotk", (1, -1)), ("diagk2", (3, -3)), ("diaghalf", (2, -1)), ("blockk", (1, -1))):
+        for metric, js in (("identity", (1, -2, 3)), ("diagk", (1, -1)), ("rotk", (1, -1)), ("diagk2", (3, -3)), ("diaghalf", (2, -1)), ("blockk", (1, -1)),
+                           ("scalhalf", (1, -2)), ("scalk2", (1, -2))):
             for j in js:
                 out.append(dict(sys="Gaussian", metric=metric, curved=True, st=si, t=j, h1=(j == 1), t1=t1s[(si + j) % 2]))
         out.append(dict(sys="GaussianConstrained", metric="diagk", curved=True, st=si, t=1, h1=True, t1="1/2"))
         out.append(dict(sys="GaussianConstrained", metric="identity", curved=True, st=si, t=3, h1=False, t1="1/2"))
+        out.append(dict(sys="GaussianConstrained", metric="scalk2", curved=True, st=si, t=-1, h1=False, t1="1/2"))
         out.append(dict(sys="GaussianConstrained", metric="rotk", curved=si % 2 == 0, st=si, t=-1, h1=True, t1="-3/4"))
     return out
 
@@ -111,6 +113,10 @@ def build_system(kind, metric_name, curved, marray, with_aux=False):
         metric = np.diag(marray).copy()
         if np.all(metric == np.round(metric)):
             metric = metric.astype(np.int64)      # an integer-valued diagonal metric given with an integer dtype
+    elif metric_name in ("scalhalf", "scalk2"):
+        # isotropic metrics as scaled-identity matrix objects: implicit size for one, explicit size for the other
+        import mici.matrices as MM
+        metric = MM.PositiveScaledIdentityMatrix(float(marray[0, 0]), None if metric_name == "scalhalf" else 3)
     elif metric_name == "blockk":
         import mici.matrices as MM
         metric = MM.PositiveDefiniteBlockDiagonalMatrix((MM.PositiveDiagonalMatrix(np.array([marray[0, 0]])),
@@ -143,9 +149,9 @@ def check_against_real(recs):
         kind, metric, curved = rec["sys"], rec["metric"], rec["curved"]
         gauss = kind in ("Gaussian", "GaussianConstrained")
         q, p = _vec(rec["q"]), _vec(rec["p"])
-        unit = 2 * THETA if metric == "diaghalf" else THETA
+        unit = 2 * THETA if metric in ("diaghalf", "scalhalf") else THETA
         t = rec["t"] * unit if gauss else _r(rec["t"])
-        tdesc = f"{rec['t'] * (2 if metric == 'diaghalf' else 1)}*atan2(3,-4)" if gauss else f"{Fraction(rec['t'][0], rec['t'][1])}"
+        tdesc = f"{rec['t'] * (2 if metric in ('diaghalf', 'scalhalf') else 1)}*atan2(3,-4)" if gauss else f"{Fraction(rec['t'][0], rec['t'][1])}"
         marray = _mat(rec["marray"])
         tag = f"{kind}[{metric}]"
         rp = {"engine": "flowexact", "case": {k: rec[k] for k in ("sys", "metric", "curved", "q", "p", "t")}}
@@ -174,7 +180,7 @@ def check_against_real(recs):
                 _ = used.eigval, used.eigvec.array, float(used.log_abs_det)
                 system.metric = used.inv
             tag = f"{kind}[{metric}]" + ("" if how == "built" else f"({how})")
-            if not np.allclose(np.asarray(system.metric.array if metric != "identity" else np.eye(3)), marray, rtol=1e-10, atol=1e-12):
+            if not np.allclose(np.asarray(np.eye(3) if metric == "identity" else (system.metric @ np.eye(3)) if metric.startswith("scal") else system.metric.array), marray, rtol=1e-10, atol=1e-12):
                 raise MachineryError("real metric differs from the spec's metric")
             # h2_flow
             st = ChainState(pos=q.copy(), mom=p.copy(), dir=1)
